@@ -281,10 +281,16 @@ class Hugr(Mapping[Node, NodeData], Generic[OpVarCov]):
         parent = self[node].parent
         if parent:
             self[parent].children.remove(node)
-        for inp, _ in self.incoming_links(node):
-            self._links.delete_right(_SubPort(inp))
-        for out, _ in self.outgoing_links(node):
-            self._links.delete_left(_SubPort(out))
+        # Remove every incident link: all links of multiply connected ports,
+        # none for unconnected ports, and the state order links.
+        for offset in range(-1, self.num_in_ports(node)):
+            inp = node.inp(offset)
+            for out in list(self.linked_ports(inp)):
+                self.delete_link(out, inp)
+        for offset in range(-1, self.num_out_ports(node)):
+            out = node.out(offset)
+            for inp in list(self.linked_ports(out)):
+                self.delete_link(out, inp)
 
         weight, self._nodes[node.idx] = self._nodes[node.idx], None
 
